@@ -86,10 +86,17 @@ def case_stopper(case, res):
     H = alpha[combos]  # [N, L]
     N = len(H)
     n_eval = 0
+    # odd parts: ONE stopper object whose public fields are re-assigned between the settings (the rule must follow the
+    # current fields); even parts: a fresh object per setting
+    shared = Stopper(max_iter=L, patience=p, atol=0.0, rtol=0.0) if part % 2 else None
     for atol in (0.0, 0.25, 0.5):
         for rtol in (0.0, 0.5):
             for max_iter in (L, L + 3):
-                st = Stopper(max_iter=max_iter, patience=p, atol=atol, rtol=rtol)
+                if shared is not None:
+                    st = shared
+                    st.max_iter, st.atol, st.rtol = max_iter, atol, rtol
+                else:
+                    st = Stopper(max_iter=max_iter, patience=p, atol=atol, rtol=rtol)
                 f_early = jax.jit(jax.vmap(lambda i, h: st.stop_early(i, h), in_axes=(None, 0)))
                 f_now = jax.jit(jax.vmap(lambda i, h: st.stop_now(i, h), in_axes=(None, 0)))
                 f_best = jax.jit(jax.vmap(lambda i, h: st.which_best_in_recent_history(i, h), in_axes=(None, 0)))
@@ -225,6 +232,13 @@ def case_optim(case, res):
             "prune": prune, "save_position_history": save_hist}
     res.sample = desc
     state_before = {k: np.asarray(v.value) for k, v in model.state.items() if v.value is not None}
+    if case["idx"] % 2:
+        # the stopper object has been used before (evaluated by hand on a history of the same length)
+        import jax.numpy as jnp
+
+        _ = bool(stopper.stop_early(jnp.asarray(1), jnp.zeros(stopper.max_iter)))
+        _ = bool(stopper.stop_now(jnp.asarray(1), jnp.zeros(stopper.max_iter)))
+        desc["stopper_used_before"] = True
     log.clear()
     with liesel_call(res, "optim_flat", desc):
         out = gs.optim_flat(model, PARAMS, optimizer=optax.adam(lr), stopper=stopper,
@@ -319,7 +333,10 @@ def case_optim(case, res):
     cv = np.array([float(st["intercept_value"].value), float(st["slope_value"].value)])
     mu = np.asarray(st["mu_value"].value)
     lp = float(st["_model_log_prob"].value)
-    if not np.array_equal(cv.astype(np.float32), pos.astype(np.float32)) or not np.allclose(mu, X @ pos, atol=1e-4) or abs(lp - lp_expected) > 1e-3 * (1 + abs(lp_expected)):
+    if mu.shape != (X @ pos).shape:
+        res.violation("state-inconsistent", f"returned state holds a mean vector of shape {mu.shape}; the training data have "
+                      f"{len(y)} observations (log_prob {lp} vs {lp_expected} for the training data)", desc)
+    elif not np.array_equal(cv.astype(np.float32), pos.astype(np.float32)) or not np.allclose(mu, X @ pos, atol=1e-4) or off(lp, lp_expected, 1e-3 * (1 + abs(lp_expected))):
         res.violation("state-inconsistent", f"returned state: coef {cv.tolist()} vs position {pos.tolist()}, "
                       f"log_prob {lp} vs {lp_expected}", desc)
     ys = np.asarray(st["y_value"].value)
